@@ -833,10 +833,19 @@ class Controller:
             logger.warning(f'!!! no connection for {sender_address}')
             return
 
-        # Send the data to the host
-        # TODO: should fragment
-        acl_packet = hci.HCI_AclDataPacket(connection.handle, 2, 0, len(data), data)
-        self.send_hci_packet(acl_packet)
+        # Send the data to the host, in fragments that fit in an HCI ACL data packet
+        max_fragment_size = 0xFFFF
+        for offset in range(0, max(len(data), 1), max_fragment_size):
+            fragment = data[offset : offset + max_fragment_size]
+            pb_flag = (
+                hci.HCI_ACL_PB_FIRST_FLUSHABLE
+                if offset == 0
+                else hci.HCI_ACL_PB_CONTINUATION
+            )
+            acl_packet = hci.HCI_AclDataPacket(
+                connection.handle, pb_flag, 0, len(fragment), fragment
+            )
+            self.send_hci_packet(acl_packet)
 
     def on_advertising_pdu(self, pdu: ll.AdvInd | ll.AdvExtInd) -> None:
         if isinstance(pdu, ll.AdvExtInd):
